@@ -88,7 +88,14 @@ def check_direction(ctx, name, in_lon, in_lat, target, out_lon, out_lat, lon_pos
     cl = cos_(radians_(in_lat))
     ctx.identity(name + ": atan2 numerator * cos(lat) == target_y", A * cl, target[1])
     ctx.identity(name + ": atan2 denominator * cos(lat) == target_x", B * cl, target[0])
-    ctx.identity(name + ": asin argument == target_z", C, target[2])
+    mins = ctx.min_args()
+    if mins:
+        # asin(max(-1.0, min(1.0, X))): the identity is stated on X; the clamp is the identity in exact arithmetic
+        X = Num.of(mins[-1][1])
+        ctx.identity(name + ": asin argument (before clamping) == target_z", X, target[2])
+        ctx.vc(name + ": clamping to [-1, 1] does not change the argument (|target_z| <= 1)", C == X)
+    else:
+        ctx.identity(name + ": asin argument == target_z", C, target[2])
     at = atan2_(A, B)
     asn = asin_(C)
     pi = pi_()
@@ -213,7 +220,23 @@ def h_pairs(ctx, pair):
 
 
 # ---- separation and position angle
-@P.harness("angular_separation/haversine-is-dot-product", contracts=CONTRACTS, axioms=("pi", "inverse-range", "trig-range", "sqrt", "pythagoras"),
+def _sep_cuts():
+    def cut(it, frame, xs, swapped=False):
+        names = ("alpha1", "delta1", "alpha2", "delta2") if not swapped else ("alpha2", "delta2", "alpha1", "delta1")
+        a1, d1, a2, d2 = (Num.real_var(v) for v in names)
+        v1, v2 = unitvec(a1, d1), unitvec(a2, d2)
+        dm = tuple(v1[i] - v2[i] for i in range(3))
+        dp = tuple(v1[i] + v2[i] for i in range(3))
+        return [("ring", "sin^2(theta/2) == (1 - v1 . v2) / 2", xs[0], (1 - dot(v1, v2)) / 2),
+                # sum-of-squares certificates for 0 <= argument <= 1 (Cauchy-Schwarz for unit vectors)
+                ("ring", "argument == |v1 - v2|^2 / 4", xs[0], dot(dm, dm) / 4),
+                ("ring", "1 - argument == |v1 + v2|^2 / 4", 1 - xs[0], dot(dp, dp) / 4),
+                ("lemma", "0 <= argument <= 1", and_(xs[0] >= 0, xs[0] <= 1), True, [xs[0]] + list(dm) + list(dp))]
+    return {("angular_separation", "sqrt", 1): cut,
+            ("angular_separation", "sqrt", 2): lambda it, frame, xs: cut(it, frame, xs, swapped=True)}
+
+
+@P.harness("angular_separation/haversine-is-dot-product", contracts=CONTRACTS, uf_cuts=_sep_cuts, axioms=("pi", "inverse-range", "trig-range", "sqrt", "pythagoras"),
            functions=[COORD + "angular_separation"], crosscheck=0, timeout=60)
 def h_sep(ctx):
     a1, al1 = angle(ctx, "alpha1")
@@ -227,7 +250,7 @@ def h_sep(ctx):
         ctx.vc("separation == acos(v1 . v2)", abs(deg(ctx, r) - math.degrees(math.acos(c))) < 1e-6)
         return
     (S,), = ctx.uf_terms("sqrt")[-1:]
-    ctx.identity("sin^2(theta/2) == (1 - v1 . v2) / 2", S, (1 - dot(v1, v2)) / 2)
+    # (the identity sin^2(theta/2) == (1 - v1 . v2)/2 is proved as a cut at the sqrt call, see _sep_cuts)
     # symmetric: the same expression with the bodies swapped
     r2 = ctx.call(COORD + "angular_separation", a2, d2, a1, d1)
     (S2,), = ctx.uf_terms("sqrt")[-1:]
